@@ -94,9 +94,11 @@ CLAIMED = {
          "are range loops. The creation callback closure is checked to refine the interface-level callback contract (behavioural subtyping).",
          "DESIGN.md section 5 C02",
          "contract-based deductive verification (govc WP over go/ssa, z3/cvc5)",
-         "Termination of the creation recursion is argued, not discharged: every nested creation marks a name that was not in creation "
-         "(proved), hence the stack depth is bounded by the number of distinct names (cardinality step outside SMT). 'Succeeds when no "
-         "post-processor substitutes' is covered only as: the stale-version error is unreachable when nothing wraps. " + TRUST),
+         "Termination is discharged (DESIGN 11.5d): recursion measures on the two recursive groups of the call graph (creation cycle: "
+         "defined names not yet in creation; embedded-struct scan: by-value nesting depth of the type), loop variants, and 'every callee "
+         "terminates' closed from App.Run downwards (130 contracts) - relative to three axioms about counting a finite set (A-FINSET), the "
+         "RDepth axioms, and the assumption that library code and user callbacks return (A-LIB-TERMINATES, A-CALLBACK; named per run). 'Succeeds "
+         "when no post-processor substitutes' is covered only as: the stale-version error is unreachable when nothing wraps. " + TRUST),
  "C03": ("other",
          "doCreateComponent is verified clause by clause: wrapping is detected and a proxy Meta with the same name is exposed "
          "([wrap-detected]); if the final version differs from the early reference, every recorded holder of the early/original version is "
